@@ -11,7 +11,7 @@ from . import c13
 
 MANIFEST_ENTRY = {
     'category': 'proof',
-    'text': "string escape/unescape lemma on the real scanner loop body: for every character the escape sequence the renderer produces (\\\\ \\' \\r \\n \\t, any other character unchanged) drives the single-quote string states back to the string state having appended exactly that character, and only an unescaped quote ends the token - so scanning a rendered string yields the original text by induction over its characters; constructor typing: every built-in inside the engine's subset that returns an int value returns one whose payload is a Python int (never a float), for every combination of argument kinds, which with ValueInt.__repr__ = str(payload) gives integer numerals; set and map rendering enumerate through the sorted views (order independence shared with C12); decimal numeral shapes, the five-step replace chain of the string renderer, nested bracket tokenisation and the full round trip eval(string(v)) == v by bounded generation of data values on the real interpreter; values built from host data (parse_json) get the value kind of the host kind - a host bool is a boolean, never an int value holding True; values built by library functions and by mutation (NULL map keys) round-trip in the stand-in",
+    'text': "string escape/unescape lemma on the real scanner loop body: for every character the escape sequence the renderer produces (\\\\ \\' \\r \\n \\t, any other character unchanged) drives the single-quote string states back to the string state having appended exactly that character, and only an unescaped quote ends the token - so scanning a rendered string yields the original text by induction over its characters; constructor typing: every built-in inside the engine's subset that returns an int value returns one whose payload is a Python int (never a float), for every combination of argument kinds, which with ValueInt.__repr__ = str(payload) gives integer numerals; set and map rendering enumerate through the sorted views (order independence shared with C12); decimal numeral shapes, the five-step replace chain of the string renderer, nested bracket tokenisation and the full round trip eval(string(v)) == v by bounded generation of data values on the real interpreter; values built from host data (parse_json) get the value kind of the host kind - a host bool is a boolean, never an int value holding True; values built by library functions and by mutation (NULL map keys) round-trip in the stand-in; numbers built by conversion and rounding functions from ints beyond 2^53; equal containers built in different orders (two listed known findings for 1 / 1.0 representatives)",
     'note': "float(repr(x)) == x and int(str(n)) == n are CPython's; decimal rendering goes through repr(float) and decimal.Decimal formatting (bounded check across magnitudes); the equivalence of the replace chain with the per-character map is checked exhaustively for short strings only (bounded); known findings: patterns whose text cannot stand between // and // have no literal form (four shapes listed in known_findings.json)",
     'technique': 'deductive verification: scanner step lemmas and constructor-typing obligations from the real AST (pyvc + z3); bounded round-trip generation for numerals and collections',
 }
